@@ -9,8 +9,35 @@ impl Precomp {
         ensures r == p_add(msm(deref_s(a.remaining()), precomp_table(*self)), msm(deref_s(b.remaining()), deref_p(c.remaining())))
     { unimplemented!() }
 }
+pub open spec fn flatten_opts<'a, T>(s: Seq<&'a Option<T>>) -> Seq<&'a T>
+    decreases s.len()
+{
+    if s.len() == 0 { Seq::empty() } else {
+        let r = flatten_opts(s.drop_last());
+        match s.last() { Some(x) => r.push(x), None => r }
+    }
+}
+pub proof fn lemma_flatten_member<'a, T>(s: Seq<&'a Option<T>>, q: int)
+    requires 0 <= q < s.len(), *s[q] is Some
+    ensures exists|k: int| 0 <= k < flatten_opts(s).len() && *(#[trigger] flatten_opts(s)[k]) == s[q]->Some_0
+    decreases s.len()
+{
+    if q == s.len() - 1 {
+        let r = flatten_opts(s.drop_last());
+        assert(flatten_opts(s)[r.len() as int] == &s[q]->Some_0);
+    } else {
+        lemma_flatten_member(s.drop_last(), q);
+        let k = choose|k: int| 0 <= k < flatten_opts(s.drop_last()).len() && *(#[trigger] flatten_opts(s.drop_last())[k]) == s.drop_last()[q]->Some_0;
+        assert(flatten_opts(s)[k] == flatten_opts(s.drop_last())[k]);
+    }
+}
+// Iterator::flatten over an iterator of &Option<T>: yields the payloads of the Some items, in order
 #[verifier::external_body]
-pub fn v_flatten<'a, T, I: Iterator<Item = &'a Option<T>>>(i: I) -> (r: VSeqIter<&'a T>) { unimplemented!() }
+pub fn v_flatten<'a, T, I: Iterator<Item = &'a Option<T>>>(i: I) -> (r: VSeqIter<&'a T>)
+    ensures r.items() == flatten_opts(i.remaining())
+{ unimplemented!() }
+pub open spec fn promise_fits(v: u64, n: usize) -> bool { n < 64 ==> (v >> n) == 0 }
+pub open spec fn promise_ok(p: Option<u64>, n: usize) -> bool { p is Some ==> promise_fits(p->Some_0, n) }
 pub trait VShr<R> {
     type Out;
     spec fn shr_ok(self, r: R) -> bool;
